@@ -228,6 +228,8 @@ def summarize(res: dict, compared, plan=None):
         if rec["op"] == "tamper" and rec.get("outcome") == "ok":
             seen_tamper = True
             probes["tamper_" + rec.get("how", "?")] = probes.get("tamper_" + rec.get("how", "?"), 0) + 1
+        if rec.get("after_crash"):
+            probes["handlers_ran_after_injected_kill"] = probes.get("handlers_ran_after_injected_kill", 0) + 1
         if rec["op"] == "write":
             seen_edit = True
             probes["edit_on_disk"] = probes.get("edit_on_disk", 0) + 1
